@@ -57,6 +57,43 @@ def grid_case(case):
     return r
 
 
+def inexact_case(case):
+    """beside the dyadic lattice: steps that are not dyadic fractions and spans far from the origin.  No exact reference grid exists; the statement is
+    applied with the rounding of t + dt: every step but the last equals dt to 2 units in the last place of the larger end, none is longer, the number
+    of steps is the smallest that covers the span (give or take the one rounding decides), and the last step is not longer than dt."""
+    r = Res()
+    a, obs, dtype = run_fixed(case)
+    name = case["method"]
+    r.n = 1
+    if obs["raised"]:
+        if obs["raised"] == "budget":
+            r.v("C04/runaway/%s" % name, "integration terminates", case, observed=dict(rows=len(a)), expected="terminates")
+        else:
+            r.add("raised"); r.out(("raised", name))
+        return r
+    T = np.asarray(a.t, dtype=LD)
+    dt = abs(LD(dtype(case["dt0"])))
+    steps = np.abs(np.diff(T))
+    if len(steps) == 0:
+        r.v("C04/inexact-grid/%s" % name, "the span is covered", case, observed="no step recorded", expected="steps")
+        return r
+    ulp = np.array([float(np.spacing(dtype(max(abs(float(T[k])), abs(float(T[k + 1])))))) for k in range(len(steps))], dtype=LD)
+    body, last = steps[:-1], steps[-1]
+    bad = np.nonzero(np.abs(body - dt) > 2 * ulp[:-1])[0]
+    span = abs(LD(dtype(case["tf"])) - LD(dtype(case["t0"])))
+    nmin = int(np.ceil(float(span / dt) - 1e-6))
+    if len(bad):
+        k = int(bad[0])
+        r.v("C04/inexact-grid/%s" % name, "every recorded step except possibly the last has exactly the requested magnitude (to the rounding of t + dt)", case,
+            observed=dict(index=k, step=float(body[k]), dt=float(dt), ulp=float(ulp[k]), rows=len(T)), expected="|step - dt| <= 2 ulp")
+    elif last > dt + 2 * ulp[-1]:
+        r.v("C04/inexact-grid/%s" % name, "no recorded step is longer than the requested dt", case, observed=dict(last=float(last), dt=float(dt)), expected="<= dt")
+    elif not (nmin <= len(steps) <= nmin + 1):
+        r.v("C04/inexact-grid/%s" % name, "the span is covered with steps of the requested size", case, observed=dict(steps=len(steps)), expected=dict(smallest=nmin))
+    r.out(("inexact", lc.family(name), case["dtype"], int(np.sign(case["tf"] - case["t0"])), abs(case["t0"]) > 100))
+    return r
+
+
 def pend(sign=1.0, kind="pendulum"):
     if kind == "oscillator":
         def f(t, y, **kw):
@@ -134,7 +171,7 @@ def invariance_case(case):
 
 
 def run_case(case):
-    return grid_case(case) if case["section"] == "grid" else invariance_case(case)
+    return grid_case(case) if case["section"] == "grid" else (inexact_case(case) if case["section"] == "inexact" else invariance_case(case))
 
 
 def run(ctx):
@@ -171,6 +208,16 @@ def run(ctx):
                     for prob in ("oscillator", "damped"):
                         for c in (-7.0, 3.0, 100.0):
                             cases.append(dict(section="inv", kind="shift", method=m, dtype=dn, t0=t0, tf=t0 + 4.0 * (1 if tf > t0 else -1), dt0=0.05, c=c, prob=prob))
+    for m in lc.FIXED_EXPLICIT + lc.SPLITTING:
+        for off in (0.0, 1000.0, -1000.0, 1.0e6):
+            for (a_, b_) in ((0.0, 3.0), (3.0, 0.0), (-1.0, 2.0), (1.0, -2.0)):
+                for dt0 in (0.1, 0.3, 0.7):
+                    for dn in lc.DT:
+                        if dn == "float32" and abs(off) > 1000:
+                            continue
+                        if ctx.quick and dn != "float64" and not (dt0 == 0.1 and (a_, b_) in ((0.0, 3.0), (1.0, -2.0))):
+                            continue
+                        cases.append(dict(section="inexact", method=m, dtype=dn, rhs="osc" if dt0 == 0.3 else "const", t0=off + a_, tf=off + b_, dt0=dt0))
     # Richardson-extrapolated wrappers are adaptive methods in the shift / reflection relation too (their step control has its own code per base family)
     for m in ("RICH:EulerSolver:3", "RICH:SymplecticEulerSolver:2", "RICH:ABAs5o6HSolver:2", "RICH:ImplicitMidpoint:2") + (() if ctx.quick else ("RICH:RK4Solver:3", "RICH:SymplecticEulerSolver:4", "RICH:BABs9o7HSolver:2")):
         for (t0, tf) in ispans[:3] if ctx.quick else ispans:
